@@ -30,12 +30,6 @@ def sig_dq(c, i, m, rec, p):
     return c[7] == "1" and p.startswith("fail:dq:")
 
 
-def sig_nested(c, i, m, rec, p):
-    """two holding (join) actions in the chain and the violation is a later event overtaking the trigger"""
-    chain = c[10].split(",")
-    return sum(1 for a in chain if a.startswith("j")) >= 2 and (p.startswith("fail:passed:") or p.startswith("fail:order:"))
-
-
 def shrink(case):
     """candidates with fewer events: drop halves, then single events (a case is `cmd 12 params nev (src stream spec)*`)"""
     t = case.split()
@@ -69,7 +63,7 @@ CFG = {
     "widen_cases": 200,
     "nontrivial": nontrivial,
     "classify": classify,
-    "signatures": {"dq_routed": sig_dq, "nested_hold": sig_nested},
+    "signatures": {"dq_routed": sig_dq},
     "rule": "random pipeline configurations (procs 1/2/4/8, capacity 1..64, both pools, batch 1..4, workers 1..3, retries 0..2, failure patterns, optional dead queue, chains of scripted verdict actions and the real join plugin, 1-3 sources x 1-3 streams, 3-40 events) with PRNG jitter in actions / output / feeders; distinct = distinct case line; non-trivial = at least one commit and (a multi-event batch, a failed send or a drop)",
     "corr_name": "Core.step? accepts the boundary trace of the real pipeline (M1 ops: put, drop, add, seal, send, giveup, batch commit, commit)",
     "trusted_base": ["trace points in /repo/pipeline (stream.go, streamer.go, processor.go, pipeline.go, batch.go) log inside the lock that serialises the step",
